@@ -10,7 +10,7 @@ def parsePolicy (s : String) : Option (Policy × Nat) :=
   match s.splitOn "/" with
   | [p, c] =>
     let pol := match p with
-      | "rr" => some Policy.rr | "random" => some .random | "wrr" => some .wrr | "lr" => some .lr
+      | "rr" => some Policy.rr | "dflt" => some Policy.rr | "random" => some .random | "wrr" => some .wrr | "lr" => some .lr
       | "lc" => some .lc | "reqrr" => some .reqrr | "maglev" => some .maglev | "ewma" => some .ewma
       | _ => none
     match pol, c.toNat? with
